@@ -59,6 +59,7 @@ def cases(draw, tier):
     family = draw(st.sampled_from(["program", "program", "program", "uu"]))
     c = dict(family=family, seed=draw(st.integers(0, 10**6)), calls=draw(st.integers(1, 3)), call_intermediates=draw(st.booleans()))
     c["nnroot"] = family == "program" and draw(st.integers(0, 4)) == 0
+    c["freeze"] = draw(st.sampled_from([None, None, None, 2, 3])) if family == "program" else None
     q = draw(st.sampled_from([None] + list(QUANTS) * 2))
     if family == "program":
         c["prog"] = draw(dsl.unit_programs(max_ops=10))
@@ -163,6 +164,13 @@ def run(c) -> CaseResult:
             res.labels.append("root=nn.Sequential(program)")
         inputs = dsl.make_inputs(prog, c["seed"])
         src = m0._verif_source
+        if c.get("freeze"):
+            # a partly frozen model (fine-tuning): every k-th parameter does not require a gradient; at least one stays trainable
+            ps = list(m0.parameters())
+            for j, p_ in enumerate(ps):
+                if len(ps) > 1 and j % c["freeze"] == 0:
+                    p_.requires_grad_(False)
+            res.labels.append("partly-frozen")
     else:
         prog = None
         m0 = UUBlock(c["h"], c["heads"], c["causal"])
@@ -230,8 +238,9 @@ def run(c) -> CaseResult:
         fr = prep(inputs)
         with patch("torch.randint", pinned):
             yr = dsl.evaluate(prog, dsl.named_tensors(final), fr, mode)
-            gr = torch.autograd.grad(yr, [fr[k] for k in FLOAT_INPUTS if k in fr] + list(P.values()), allow_unused=True)
-        ref = (yr.detach(), dict(zip(["input:" + k for k in FLOAT_INPUTS if k in fr] + list(P.keys()), gr)))
+            live = {k: v for k, v in P.items() if v.requires_grad}   # (frozen parameters take no gradient)
+            gr = torch.autograd.grad(yr, [fr[k] for k in FLOAT_INPUTS if k in fr] + list(live.values()), allow_unused=True)
+        ref = (yr.detach(), {**{k: None for k in P}, **dict(zip(["input:" + k for k in FLOAT_INPUTS if k in fr] + list(live.keys()), gr))})
         lossy_sr = qname in ("fp8", "e4m3-sr3", "e5m2-nearest")
         # compared on the chain *without* its terminating track_scales / compile (those are covered by the end-transform clause)
         base_run = run_once_(mods[len(chain)], inputs) if c["end"] else results[0]
